@@ -13,6 +13,14 @@ Theorem C18_uri_app : forall (V : Type) r (e : exn V), x_app e = true -> err_uri
 Proof. exact uri_app. Qed.
 Print Assumptions C18_uri_app.
 
+(* in particular a SUBCLASS of ApplicationError that is itself define()d under URI u still travels under the URI the
+   instance carries: the define() table is consulted only for non-application errors *)
+Theorem C18_uri_app_registered_subclass : forall (V : Type) pattern_ok ops1 c u ops2 (e : exn V),
+  x_cls e = c -> x_app e = true ->
+  err_uri (reg_after pattern_ok (ops1 ++ DefExplicit c u :: ops2)) e = x_error e.
+Proof. intros V pattern_ok ops1 c u ops2 e _ H. apply uri_app. exact H. Qed.
+Print Assumptions C18_uri_app_registered_subclass.
+
 (* after any history of define() calls: the class gets the (first) URI of its latest successful registration,
    later registrations of other classes do not matter *)
 Theorem C18_uri_registered : forall (V : Type) pattern_ok ops1 o ops2 (e : exn V) u us,
@@ -148,6 +156,17 @@ Theorem C18_call_completes : forall (V MV : Type) construct caller_hook r p tbl 
 Proof. exact on_error_call. Qed.
 Print Assumptions C18_call_completes.
 
+(* ---------------------------------------------------------------- the call-cancelling path *)
+(* INTERRUPT (any number of them) before the endpoint fails: the invocation record stays, so the errback still
+   finds it, sends exactly the ERROR of the uninterrupted path (URI, args, kwargs as above) and removes the record *)
+Theorem C18_error_after_interrupts : forall (V MV : Type) note callee_hook table n r tba tbv req (e : exn V) sr,
+  existsb (N.eqb req) table = true ->
+  snd (interrupted_failure (MV:=MV) note table n callee_hook r tba tbv req e sr)
+    = Ok (invocation_error note callee_hook r tba tbv req e sr) /\
+  existsb (N.eqb req) (fst (interrupted_failure (MV:=MV) note table n callee_hook r tba tbv req e sr)) = false.
+Proof. exact interrupted_failure_sends. Qed.
+Print Assumptions C18_error_after_interrupts.
+
 (* ---------------------------------------------------------------- end to end *)
 (* [callee_hook] / [caller_hook] = the applications' onUserError overrides (called by the invocation errback and
    when a registered class's constructor raises): arbitrary, also raising — both call sites are try/except-guarded.
@@ -232,4 +251,16 @@ Example C18_witness_end_to_end :
     = ([(48, [mkRequest 7 false])],
        Rejected 8 (mkCexn CLS_ApplicationError (Some "com.myapp.error1") [] (Some [("error", 5)]) true
                           (map (fun n => (n, FromMsg None)) RESERVED) [])).
+Proof. vm_compute. repeat split; reflexivity. Qed.
+
+(* class 30 = a subclass of ApplicationError, define()d under com.shop.error, raised carrying another URI: the carried
+   URI wins; and an endpoint that fails after two INTERRUPTs still answers *)
+Example C18_witness_subclass_and_interrupt :
+  let r := reg_after ex_pattern_ok [DefExplicit 30 "com.shop.error"] in
+  let e := mkExn (V:=N) 30 true "com.shop.error.out_of_stock" [1] (Some []) in
+  err_uri r e = "com.shop.error.out_of_stock" /\
+  err_uri r (mkExn (V:=N) 30 false "" [1] None) = "com.shop.error" /\
+  snd (interrupted_failure (MV:=N) (fun _ => 0) [7; 9] 2 HookRaises r false None 9 e SendOk)
+    = Ok [mkErr 68 9 "com.shop.error.out_of_stock" (Some [1]) (Some []) no_meta] /\
+  snd (interrupted_failure (MV:=N) (fun _ => 0) [7] 1 HookRaises r false None 9 e SendOk) = Raise KeyError.
 Proof. vm_compute. repeat split; reflexivity. Qed.
